@@ -77,6 +77,13 @@ int Var::div(Var &var_d, Var &var_s)
       return -1;
     }
 
+    // INT64_MIN / -1 does not fit and traps on x86.
+    if (var_s.value_int == -1)
+    {
+      value_int = (int64_t)(0 - (uint64_t)var_d.value_int);
+      return 0;
+    }
+
     value_int = var_d.value_int / var_s.value_int;
   }
     else
@@ -97,6 +104,13 @@ int Var::mod(Var &var_d, Var &var_s)
   {
     printf("Error: Division by zero.\n");
     return -1;
+  }
+
+  // INT64_MIN % -1 traps on x86; anything modulo -1 is 0.
+  if (var_s.value_int == -1)
+  {
+    value_int = 0;
+    return 0;
   }
 
   value_int = var_d.value_int % var_s.value_int;
